@@ -23,6 +23,7 @@
 #include "numeric.h"
 #include "preprocessing.h"
 #include "pca.h"
+#include "verifhooks.h"
 #include "vector.h"
 #include "matrix.h"
 #include "scientificinfo.h"
@@ -258,6 +259,7 @@ void PCA(matrix *mx, int scaling, size_t npc, PCAMODEL* model, ssignal *s)
       /* End Step 1 */
 
       while(1){
+        LIBSCI_VERIF_TICK(0);
         /* Step 2: projection of t' in E (t'*E) */
         MT_DVectorMatrixDotProduct(E, t, p);
         /* calc the vectors product t'*t = Sum(t[i]^2) */
